@@ -248,8 +248,23 @@ func init() {
 		r := IMod(x, e18)
 		return []Value{DecV{T: IMul(Ite(Eq(r, IntI(0)), q, IAdd(q, IntI(1))), e18)}}
 	}
+	integral := func(x *Term) *Term {
+		// x = k * 10^18 syntactically (result of Ceil / NewDecFromInt): the integer part is k
+		if x.Op == "*" && len(x.Args) == 2 {
+			if x.Args[1].IsConst() && x.Args[1].N.Cmp(e18.N) == 0 {
+				return x.Args[0]
+			}
+			if x.Args[0].IsConst() && x.Args[0].N.Cmp(e18.N) == 0 {
+				return x.Args[1]
+			}
+		}
+		return nil
+	}
 	models[md+"RoundInt"] = func(e *Exec, a []Value) []Value {
 		x := decNN(e, a[0])
+		if k := integral(x); k != nil {
+			return []Value{IntV{T: k}}
+		}
 		// banker's rounding; exact on integral values
 		q := IDiv(x, e18)
 		r := IMod(x, e18)
@@ -258,6 +273,9 @@ func init() {
 		return []Value{IntV{T: Ite(up, IAdd(q, IntI(1)), q)}}
 	}
 	models[md+"TruncateInt"] = func(e *Exec, a []Value) []Value {
+		if k := integral(decNN(e, a[0])); k != nil {
+			return []Value{IntV{T: k}}
+		}
 		return []Value{IntV{T: goQuo(decNN(e, a[0]), e18)}}
 	}
 	models[md+"String"] = func(e *Exec, a []Value) []Value {
@@ -430,6 +448,19 @@ func init() {
 	models[sc+"WithIsCheckTx"] = func(e *Exec, a []Value) []Value {
 		c := ctxOf(e, a[0]).copy()
 		c.CheckTx = asTerm(e, a[1])
+		return []Value{c}
+	}
+	models[sc+"WithMinGasPrices"] = func(e *Exec, a []Value) []Value {
+		c := ctxOf(e, a[0]).copy()
+		c.MinGas = a[1]
+		return []Value{c}
+	}
+	models[sc+"WithIsReCheckTx"] = func(e *Exec, a []Value) []Value {
+		c := ctxOf(e, a[0]).copy()
+		c.ReCheckTx = asTerm(e, a[1])
+		if c.ReCheckTx.IsTrue() {
+			c.CheckTx = True
+		}
 		return []Value{c}
 	}
 	models[sc+"WithEventManager"] = func(e *Exec, a []Value) []Value {
